@@ -267,7 +267,19 @@ pub fn record_compile(opts: &Opts) -> i32 {
         }
         return 0;
     }
-    for _ in 0..count {
+    for k in 0..count {
+        if opts.get("no-warmup").is_none() && (k == 0 || k == 37 || k == 113) {
+            // a compilation that fails AFTER handling a time test, a tick of the clock, then time tests with every unit:
+            // whatever the failed call left behind would now be a second old
+            if let ParseOut::Ok(o, t) = run_parse(["-type f -mmin -90 -ls", "-mtime 1 -user bob", "-amin +2 -o -ctime 3 -regex x"][(k % 3) as usize]) { let _ = run_compile(&t, &o, &paths); }
+            std::thread::sleep(std::time::Duration::from_millis(1100));
+            for probe in ["-mmin -5 -o -mtime +1 -o -amin 3", "-ctime -2s -o -cmin +7 -o -atime 1h"] {
+                if let ParseOut::Ok(o, t) = run_parse(probe) {
+                    let c = run_compile(&t, &o, &paths);
+                    emit(&mut out, &json!({"t": expr_to_json(&t), "o": opts_to_json(&o), "c": c}));
+                }
+            }
+        }
         let sz = 1 + rng.below(size);
         let t = if opts.get("profile") == Some("chain") { let n = if size >= 200 { size - rng.below(20) } else { 1 + size / 2 + rng.below(size / 2 + 1) }; rand_chain(&mut rng, n) } else { rand_tree(&mut rng, sz, &p) };
         let mut o = lipe_find_parser::RunOptions::default();
@@ -542,6 +554,16 @@ pub fn total_corpus(rng: &mut Rng, count: usize) -> Vec<String> {
     let mut v: Vec<String> = codepoint_sweep();
     v.extend(digit_run_sweep());
     v.extend(wide_word_sweep());
+    // NESTING at the stated bound (64) and below it, every level using several operators before it opens the next
+    // group; and the plain shapes
+    for n in [8usize, 16, 31, 32, 33, 48, 60, 61, 62, 63, 64] {
+        for lead in ["-empty , -readable -o -writable ( ", "-true -o -false , ! ( ", "-name a -name b -o ( ", "! -true , -print -o ( ", "( ", "! ( ", "-true , ( ", "-false -o ( ",
+                     "-name a -a ( "] {
+            v.push(format!("{}-print{}", lead.repeat(n), " )".repeat(n)));
+            v.push(format!("{}-print{} -o -name z", lead.repeat(n), " )".repeat(n)));
+        }
+        v.push(format!("{}-true", "! ".repeat(n)));
+    }
     // numbers taken from the clock: the current second, minute, hour and day since the epoch (and neighbours)
     // (the orchestrator fixes the instant once per check, so that two recorders -- the debug and the release build --
     // are given the same corpus)
